@@ -400,7 +400,10 @@ class TreeGen:
         return ["rawblock", "raw", self.rng.choice(["{{ x }}", "{% if x %}", "r"]), "endraw"]
 
     def n_doc(self, depth):
-        return ["rawblock", "doc", "some doc {{ x }}", "enddoc"]
+        # documentation may mention any markup: nothing in a doc block is parsed or printed
+        return ["rawblock", "doc", self.rng.choice([
+            "some doc {{ x }}", "use {% comment %} for notes", "wrap in {% raw %} to print {{ braces }}",
+            "{% if x %} unbalanced", "plain words", "{{ x | upcase }} and {% assign y = 1 %}"]), "enddoc"]
 
     def n_inline(self, depth):
         return ["tag", "#", self.rng.choice(["note", "x | y", ""]), ""]
